@@ -363,6 +363,15 @@ def _run_hypothesis(facet: Facet, tier: str, seed: int, ncases: int, rec: Record
         test()
     except _Fail:
         pass
+    except hypothesis.errors.Flaky:
+        # Hypothesis re-ran a failing case and it passed (or failed differently).  When the oracle
+        # did reject real output of the code once, that observation stands: the defect depends on
+        # process state (a cache, a table modified in place), which is exactly what a history
+        # property is about.  Without a recorded violation it is the harness that is unstable.
+        if rec.failure is None:
+            rec.harness_error = "hypothesis reports a flaky check without a recorded violation"
+        else:
+            rec.failure["message"] += " [did not reproduce when the case was re-run in the same process: state-dependent]"
     except hypothesis.errors.FailedHealthCheck as e:
         rec.harness_error = f"hypothesis health check: {e}"
     except hypothesis.errors.Unsatisfiable as e:
